@@ -1,7 +1,367 @@
-//! Oracles C09, C10, C14, C16 (subscriptions).
-use crate::digest::*;
-use crate::oracle::*;
+//! Oracles C09, C10 (subscription lifecycle, channeled subscribers), C14 (iterator), C16 (selector).
 
-pub fn c09_c10(_d: &Digest, _s: usize, _out: &mut Vec<Violation>) {}
-pub fn c14(_d: &Digest, _s: usize, _out: &mut Vec<Violation>) {}
-pub fn c16(_d: &Digest, _s: usize, _out: &mut Vec<Violation>) {}
+use crate::digest::*;
+use crate::model::*;
+use crate::oracle::*;
+use crate::world::*;
+
+fn v(out: &mut Vec<Violation>, prop: &'static str, clause: &'static str, detail: String) {
+    out.push(Violation { prop, clause, detail, known: None });
+}
+fn vk(out: &mut Vec<Violation>, prop: &'static str, clause: &'static str, detail: String, known: &'static str) {
+    out.push(Violation { prop, clause, detail, known: Some(known) });
+}
+
+/// the reference notification stream of store s: the log of a whole-run direct subscriber
+/// (act, n, h, sel, seq), if the scenario has one
+pub fn ref_stream(d: &Digest, s: usize) -> Option<Vec<(ActId, u32, u64, u8, usize)>> {
+    let subs = whole_run_direct_subs(d, s);
+    let (sub, _, _) = subs.first()?;
+    if d.stores[s].clean_stop.is_none() {
+        return None;
+    }
+    Some(sub_log(d, *sub).into_iter().filter(|x| d.act_store.get(&x.0) == Some(&s)).collect())
+}
+
+fn unsub_calls<'a>(d: &'a Digest, reg: usize) -> Vec<&'a Call> {
+    d.calls.iter().filter(|c| matches!(c.op, OpK::Unsub { reg: r } if r == reg) && c.res != Some(Res::Skipped)).collect()
+}
+
+fn regs_of_sub(d: &Digest, sub: usize) -> usize {
+    d.regs.values().filter(|x| x.0 == sub).count()
+}
+
+pub fn c09_c10(d: &Digest, s: usize, out: &mut Vec<Violation>) {
+    let sd = &d.stores[s];
+    let pos = d.inst_positions(s);
+    let xret = sd.clean_stop.map(|c| d.calls[c].ret.unwrap());
+    let tainted = sd.clean_stop.is_none();
+    for (reg, (sub, st, ci)) in &d.regs {
+        if *st != s || regs_of_sub(d, *sub) != 1 {
+            continue;
+        }
+        let kind = d.sub_kind(*sub).clone();
+        if kind == SubKind::Selector {
+            continue;
+        }
+        let add = &d.calls[*ci];
+        let log = sub_log(d, *sub);
+        if add.res == Some(Res::Err) {
+            // injected spawn failure: the failed subscriber is exempt and must stay silent
+            if !log.is_empty() {
+                v(out, "C10", "failed-subscription-notified", format!("store {s}: subscriber {sub} whose subscription failed was notified"));
+            }
+            continue;
+        }
+        let Some(add_ret) = add.ret else { continue };
+        let unsubs = unsub_calls(d, *reg);
+        let u1 = unsubs.first().cloned();
+        let channeled = matches!(kind, SubKind::Channeled { .. });
+        let ch_policy = match kind {
+            SubKind::Channeled { policy, .. } => Some(policy),
+            _ => None,
+        };
+        // ---- C09 (b): silent after unsubscribe() returned
+        if let Some(u) = u1 {
+            if let Some(uret) = u.ret {
+                if let Some(late) = log.iter().find(|x| x.4 > uret) {
+                    // the pipeline of that action began when the reducer took it from the queue
+                    let took = d.ev[..late.4]
+                        .iter()
+                        .rposition(|e| Some(e.tid) == sd.rtid && matches!(&e.k, K::ChRecv { chan, .. } if Some(*chan) == sd.dchan));
+                    let began_before = took.map(|t| t < uret).unwrap_or(false)
+                        || pos.get(&late.0).map(|p| sd.insts[p[0]].first < uret).unwrap_or(false);
+                    let msg = format!("store {s}: subscriber {sub} was notified of action {} after unsubscribe() had returned", late.0);
+                    if !channeled && began_before {
+                        vk(out, "C09", "notified-after-unsubscribe", msg, "F1");
+                    } else {
+                        v(out, if channeled { "C10" } else { "C09" }, "notified-after-unsubscribe", msg);
+                    }
+                }
+            }
+        }
+        // ---- C09 (a): notified while registered
+        if !tainted && sd.model.policy == Policy::Block {
+            for inst in &sd.insts {
+                if d.notify_exp(inst) != NotifyExp::Must {
+                    continue;
+                }
+                let Some(dc) = d.dispatch_call_of(s, inst.act) else { continue };
+                if !(add_ret < dc.inv) {
+                    continue;
+                }
+                if let Some(u) = u1 {
+                    if u.inv < d.inst_end_bound(s, inst) {
+                        continue;
+                    }
+                }
+                if ch_policy.map(|p| p != Policy::Block).unwrap_or(false) {
+                    continue;
+                }
+                if !log.iter().any(|x| x.0 == inst.act) {
+                    v(
+                        out,
+                        if channeled { "C10" } else { "C09" },
+                        "registered-but-not-notified",
+                        format!("store {s}: subscriber {sub} was registered before action {} was dispatched and was not notified of it", inst.act),
+                    );
+                }
+            }
+        }
+        // ---- C09 (d)/(e): on_unsubscribe exactly once, in time
+        let unsub_evs: Vec<usize> = d.ev.iter().enumerate().filter(|(_, e)| matches!(&e.k, K::Unsub { sub: sb } if sb == sub)).map(|(i, _)| i).collect();
+        let before_shutdown = sd.first_shutdown_inv.map(|f| add_ret < f).unwrap_or(true);
+        if unsub_evs.len() > 1 {
+            v(out, "C09", "released-twice", format!("store {s}: subscriber {sub} got on_unsubscribe {} times", unsub_evs.len()));
+        }
+        if before_shutdown && !tainted {
+            let deadline = match (u1.and_then(|u| u.ret), xret) {
+                (Some(a), Some(b)) => a.min(b),
+                (Some(a), None) => a,
+                (None, Some(b)) => b,
+                (None, None) => usize::MAX,
+            };
+            match unsub_evs.first() {
+                None => {
+                    let msg = format!("store {s}: subscriber {sub} ({}) never got on_unsubscribe", if channeled { "channeled" } else { "direct" });
+                    if channeled {
+                        vk(out, "C09", "never-released", msg, "F2");
+                    } else {
+                        v(out, "C09", "never-released", msg);
+                    }
+                }
+                Some(&i) => {
+                    if i > deadline {
+                        v(out, "C09", "released-late", format!("store {s}: subscriber {sub} got on_unsubscribe only after unsubscribe()/stop() had returned"));
+                    }
+                }
+            }
+        }
+        // ---- C10
+        let SubKind::Channeled { policy, .. } = kind else { continue };
+        let want_name = format!("{}-channeled-subscriber", d.store_name(s));
+        for x in &log {
+            let tid = d.ev[x.4].tid;
+            if Some(tid) == sd.rtid || d.tid_name.get(&tid) != Some(&want_name) {
+                v(out, "C10", "own-thread", format!("store {s}: channeled subscriber {sub} was called on thread {:?} ({})", d.tid_name.get(&tid), tid));
+                break;
+            }
+        }
+        if let Some(r) = ref_stream(d, s) {
+            // in-order (sub)sequence of the stream, with the right states
+            let mut ri = 0;
+            let mut first_at = None;
+            let mut ok = true;
+            for x in &log {
+                match r[ri..].iter().position(|y| y.0 == x.0) {
+                    Some(k) => {
+                        if policy == Policy::Block && first_at.is_some() && k != 0 {
+                            v(out, "C10", "gap", format!("store {s}: channeled subscriber {sub} (BlockOnFull) skipped notification(s) before action {}", x.0));
+                            ok = false;
+                            break;
+                        }
+                        let y = &r[ri + k];
+                        if (y.1, y.2) != (x.1, x.2) {
+                            v(out, "C10", "wrong-state", format!("store {s}: channeled subscriber {sub} got action {} with state n={}, a direct subscriber got n={}", x.0, x.1, y.1));
+                        }
+                        if first_at.is_none() {
+                            first_at = Some(ri + k);
+                        }
+                        ri += k + 1;
+                    }
+                    None => {
+                        v(out, "C10", "not-a-subsequence", format!("store {s}: channeled subscriber {sub} got action {} out of order, twice, or never notified to direct subscribers", x.0));
+                        ok = false;
+                        break;
+                    }
+                }
+            }
+            if ok && policy == Policy::DropOldest && u1.is_none() {
+                if let Some(last) = r.last() {
+                    let registered_in_time = d.dispatch_call_of(s, last.0).map(|dc| add_ret < dc.inv).unwrap_or(false);
+                    if registered_in_time && log.last().map(|x| x.0) != Some(last.0) {
+                        v(out, "C10", "newest-not-delivered", format!("store {s}: DropOldest channeled subscriber {sub} did not receive the newest notification (action {})", last.0));
+                    }
+                }
+            }
+        }
+        // everything queued was delivered (flush), at quiescence
+        if let Some(ch) = d.reg_chan.get(reg) {
+            let consumer: Option<usize> = d.reg_consumer.get(reg).cloned();
+            let sends = d.ev.iter().filter(|e| matches!(&e.k, K::ChSend { chan, .. } if chan == ch)).count();
+            let pops = d.ev.iter().filter(|e| matches!(&e.k, K::ChRecv { chan, .. } if chan == ch) && Some(e.tid) != consumer).count();
+            if !tainted && sends >= pops && log.len() != sends - pops {
+                v(out, "C10", "queued-not-delivered", format!("store {s}: {} notifications entered channeled subscriber {sub}'s queue ({} displaced) but {} were delivered", sends, pops, log.len()));
+            }
+        }
+    }
+    // C10: a stalled lossy subscriber never stalls reducing
+    let only_lossy_stalls = d.prog.stores.iter().all(|c| c.stepper.is_none())
+        && d.prog.acts.values().all(|a| a.red.values().all(|r| r.gate.is_none() && r.sleep_ms == 0 && r.eff.is_none()))
+        && d.prog.subs.iter().all(|x| (x.gate.is_none() && x.sleep_ms == 0) || matches!(x.kind, SubKind::Channeled { policy, .. } if policy != Policy::Block))
+        && d.prog.iters == 0;
+    if only_lossy_stalls && sd.model.policy == Policy::Block && observable(sd) {
+        for (q, e) in d.ev.iter().enumerate() {
+            if !matches!(e.k, K::Snap { .. }) {
+                continue;
+            }
+            let busy = d.calls.iter().any(|c| matches!(c.op, OpK::Unsub { .. } | OpK::Stop { .. } | OpK::Close { .. } | OpK::DropStore { .. }) && c.inv < q && c.res != Some(Res::Skipped) && c.ret_or_max() > q);
+            if busy || sd.first_shutdown_inv.map(|f| f < q).unwrap_or(false) {
+                continue;
+            }
+            for &ci in &sd.dispatches {
+                let c = &d.calls[ci];
+                if let (OpK::Dispatch { act, .. }, true) = (&c.op, c.ok()) {
+                    if c.ret_or_max() < q && !pos.get(act).map(|p| sd.insts[p[0]].last < q).unwrap_or(false) {
+                        v(out, "C10", "lossy-subscriber-stalled-store", format!("store {s}: action {act} not processed at quiescence while only a drop-policy channeled subscriber was stalled"));
+                        return;
+                    }
+                }
+            }
+        }
+    }
+}
+
+pub fn c14(d: &Digest, s: usize, out: &mut Vec<Violation>) {
+    let sd = &d.stores[s];
+    for c in &d.calls {
+        let OpK::Iter { store, it } = c.op else { continue };
+        if store != s || c.res == Some(Res::Skipped) {
+            continue;
+        }
+        let Some(iret) = c.ret else { continue };
+        if sd.first_shutdown_inv.map(|f| iret > f).unwrap_or(false) {
+            continue; // created during/after shutdown: not quantified over
+        }
+        let items: Vec<Option<(u32, u64, ActId)>> = d
+            .ev
+            .iter()
+            .filter_map(|e| match &e.k {
+                K::NextR { it: i, item } if *i == it => Some(*item),
+                _ => None,
+            })
+            .collect();
+        let first_none = items.iter().position(|x| x.is_none());
+        if let Some(fnone) = first_none {
+            if items[fnone..].iter().any(|x| x.is_some()) {
+                v(out, "C14", "item-after-none", format!("store {s}: iterator {it} yielded an item after it had returned None"));
+            }
+        }
+        let got: Vec<(u32, u64, ActId)> = items.iter().take(first_none.unwrap_or(items.len())).map(|x| x.unwrap()).collect();
+        let Some(r) = ref_stream(d, s) else { continue };
+        // contiguous run of the stream
+        if let Some(f) = got.first() {
+            match r.iter().position(|y| y.0 == f.2) {
+                None => v(out, "C14", "not-in-stream", format!("store {s}: iterator {it} yielded action {} which was never notified", f.2)),
+                Some(start) => {
+                    for (k, g) in got.iter().enumerate() {
+                        match r.get(start + k) {
+                            Some(y) if y.0 == g.2 => {
+                                if (y.1, y.2) != (g.0, g.1) {
+                                    v(out, "C14", "wrong-state", format!("store {s}: iterator {it} yielded action {} with state n={}, notified state n={}", g.2, g.0, y.1));
+                                }
+                            }
+                            other => {
+                                v(out, "C14", "gap-or-repeat", format!("store {s}: iterator {it} yielded action {} where the stream has {:?}", g.2, other.map(|y| y.0)));
+                                break;
+                            }
+                        }
+                    }
+                }
+            }
+        }
+        // completeness: drained to None after a clean stop, never dropped before
+        let drained = d.calls.iter().any(|x| matches!(x.op, OpK::Drain { it: i } if i == it) && x.ret.is_some() && x.res == Some(Res::Unit));
+        if drained && first_none.is_some() {
+            for y in &r {
+                let after_creation = d.dispatch_call_of(s, y.0).map(|dc| dc.inv > iret).unwrap_or(false);
+                if after_creation && !got.iter().any(|g| g.2 == y.0) {
+                    v(out, "C14", "missed", format!("store {s}: iterator {it} never yielded action {} dispatched after it was created", y.0));
+                }
+            }
+            // ends only because the store stopped (or it was exhausted by its own Exit)
+            if items.len() - first_none.unwrap() < 4 {
+                v(out, "C14", "none-not-sticky", format!("store {s}: iterator {it}: fewer None results recorded than calls made"));
+            }
+        }
+    }
+}
+
+fn dedup<T: PartialEq + Clone, U: Clone>(v: &[(T, U)]) -> Vec<(T, U)> {
+    let mut out: Vec<(T, U)> = vec![];
+    for x in v {
+        if out.last().map(|l| l.0 != x.0).unwrap_or(true) {
+            out.push(x.clone());
+        }
+    }
+    out
+}
+
+pub fn c16(d: &Digest, s: usize, out: &mut Vec<Violation>) {
+    let sd = &d.stores[s];
+    for (reg, (sub, st, ci)) in &d.regs {
+        if *st != s || *d.sub_kind(*sub) != SubKind::Selector {
+            continue;
+        }
+        let cbs: Vec<(u8, ActId)> = d
+            .ev
+            .iter()
+            .filter_map(|e| match &e.k {
+                K::SelCb { sub: sb, val, act } if sb == sub && d.act_store.get(act) == Some(&s) => Some((*val, *act)),
+                _ => None,
+            })
+            .collect();
+        // local invariants hold for shared and unshared selectors alike
+        if !d.prog.subs[*sub].shared {
+            for w in cbs.windows(2) {
+                if w[0].0 == w[1].0 {
+                    v(out, "C16", "repeated-value", format!("store {s}: selector {sub} delivered value {} twice in a row (actions {} and {})", w[0].0, w[0].1, w[1].1));
+                }
+            }
+        }
+        for (val, act) in &cbs {
+            if let Some(p) = d.inst_positions(s).get(act) {
+                let want = d.prog.acts.get(act).map(|a| a.sel).unwrap_or(0);
+                let inst = &sd.insts[p[0]];
+                let reduced = !d.red_ends(inst).is_empty();
+                if reduced && *val != want {
+                    v(out, "C16", "wrong-value", format!("store {s}: selector {sub} delivered {val} for action {act} whose state selects {want}"));
+                }
+            }
+        }
+        if d.prog.subs[*sub].shared || regs_of_sub(d, *sub) != 1 {
+            continue;
+        }
+        let Some(r) = ref_stream(d, s) else { continue };
+        let add = &d.calls[*ci];
+        let Some(add_ret) = add.ret else { continue };
+        let stream: Vec<(u8, ActId)> = r.iter().map(|y| (y.3, y.0)).collect();
+        let unsubs = unsub_calls(d, *reg);
+        let u1 = unsubs.first();
+        // latest possible start: the first notification whose dispatch was invoked after registration
+        let jmax = r.iter().position(|y| d.dispatch_call_of(s, y.0).map(|dc| dc.inv > add_ret).unwrap_or(false)).unwrap_or(r.len());
+        // earliest possible end (exclusive): notifications completed before unsubscribe was invoked
+        let kmin = match u1 {
+            None => r.len(),
+            Some(u) => r.iter().take_while(|y| d.inst_positions(s).get(&y.0).map(|p| sd.insts[p[0]].last < u.inv).unwrap_or(false)).count(),
+        };
+        let mut okay = false;
+        for j in 0..=jmax.min(r.len()) {
+            let full = dedup(&stream[j..]);
+            let must = if kmin > j { dedup(&stream[j..kmin]) } else { vec![] };
+            let is_prefix = |a: &[(u8, ActId)], b: &[(u8, ActId)]| a.len() <= b.len() && a.iter().zip(b.iter()).all(|(x, y)| x == y);
+            if is_prefix(&cbs, &full) && is_prefix(&must, &cbs) {
+                okay = true;
+                break;
+            }
+        }
+        if !okay {
+            v(
+                out,
+                "C16",
+                "not-dedup-of-stream",
+                format!("store {s}: selector {sub} callbacks {:?} are not the de-duplicated selected values of the notification stream {:?} (window start <= {jmax}, end >= {kmin})", cbs, stream),
+            );
+        }
+    }
+}
